@@ -18,8 +18,7 @@ from ..cfg import CFG, node_calls
 from .c03 import model, graph
 
 LEVEL = "other"
-TECHNIQUE = ("write-set inventory of long-lived objects over the resolved parse call graph vs. must-assign set of the "
-             "reset roots (CFG dominance); pairing rule for per-phase scratch state; memo check for module-level caches")
+TECHNIQUE = ('write-set inventory of long-lived objects over the resolved parse call graph vs. must-assign set of the reset roots (CFG dominance); pairing rule for per-phase scratch state; memo / publication checks for module-level and closure caches')
 CLAIM = ('Every attribute of the objects that survive a parse (HTMLParser, its 23 phase objects, the '
          'TreeBuilder) that any function reachable from the main loop can write is either re-initialised on '
          'every path through _parse/reset/TreeBuilder.reset, or is scratch state of one phase that is re- '
